@@ -221,11 +221,11 @@ End WinEmit.
 (* ================================================================ the FSEvents emitter
    Everything about FSEvents ([fsevents_kernel], coalescing) is modelled from the documentation and the
    comments in fsevents.py; it cannot be validated in this sandbox. *)
-Require WD.Model.FsEvents WD.Proofs.FsEventsProofs WD.Proofs.FsContractProofs WD.Proofs.FsReplayProofs.
+Require WD.Model.FsEvents WD.Proofs.FsEventsProofs WD.Proofs.FsContractProofs WD.Proofs.FsReplayProofs WD.Proofs.FsBatchProofs.
 
 Module Fse.
 Import WD.Base.BStr WD.Model.SubEvents WD.Model.PlatFs WD.Model.FsEvents WD.Proofs.FsEventsProofs.
-Import WD.Proofs.WinEmitterProofs WD.Proofs.WinReplayProofs WD.Proofs.FsContractProofs WD.Proofs.FsReplayProofs.
+Import WD.Proofs.WinEmitterProofs WD.Proofs.WinReplayProofs WD.Proofs.FsContractProofs WD.Proofs.FsReplayProofs WD.Proofs.FsBatchProofs.
 
 (* Non-recursive watch: whatever the native batch (any flags, any paths, any coalescing, any cut), the
    _fs_view and the state of the file system, every queued event passed _is_recursive_event ... *)
@@ -325,6 +325,68 @@ Theorem C20_fsevents_inode_reuse_refuted :
     view_of (fold_left apply_op ops []) = [(g, KFile)].
 Proof. exact fse_inode_reuse_refuted. Qed.
 Print Assumptions C20_fsevents_inode_reuse_refuted.
+
+(* Several operations delivered as ONE batch, arbitrarily many, no coalescing (recursive watch).
+   The law holds exactly under [batch_ok] (FsBatchProofs.v), per operation of the batch:
+     - it succeeds in the tree of its moment, names valid, a created item has a never-seen inode;
+     - [stat_ok]: the path of a one-sided rename (move in / move out) is, when the batch is processed,
+       still there with the item's inode / still gone;
+     - [no_partner]: the item of a one-sided rename is not flagged renamed again later in the batch;
+     - [covers]: os.walk, at processing time, lists below a renamed / arrived directory what was
+       below it right after that operation.
+   Then one call of queue_events on the whole batch queues the concatenated contracts and replaying
+   them reproduces the tree.  The findings F12a-e violate these hypotheses (F12c: no_partner;
+   F12d: stat_ok; F12a/b/e: coalescing, excluded here - see C20_fsevents_coalesce_distinct). *)
+Theorem C20_fsevents_batch_partial :
+  forall stat_ino walk sub root ops seen view f,
+  root <> [] -> last_is_sep root = false ->
+  (forall p, walk (abspath root p) = sub p) -> (forall p, wf_tree (sub p) = true) ->
+  wf_fs f -> batch_ok stat_ino sub root seen f ops -> (forall j, mem j view = true -> In j seen) ->
+  exists v, queue_events stat_ino walk true root view (batch_natives root f ops)
+            = Some (map (render root) (batch_contracts sub f ops), v, false) /\
+            Permutation (replay (view_of f) (batch_contracts sub f ops)) (view_of (fold_left apply_op ops f)).
+Proof. exact fse_batch_recursive. Qed.
+Print Assumptions C20_fsevents_batch_partial.
+
+(* Coalescing merges events of the same item at the same path; a batch in which no two events share
+   (path, inode) is left untouched, so the theorem above applies to it as it stands. *)
+Theorem C20_fsevents_coalesce_distinct : forall l, distinct_items l -> coalesce_all l = l.
+Proof. exact coalesce_distinct. Qed.
+Print Assumptions C20_fsevents_coalesce_distinct.
+
+(* Full law for batches of several operations, coalesced or not, processed when all operations are
+   done (the oracles answer for the final tree) - stated, NOT proved, and false as it stands: the
+   witnesses are C20_fsevents_batched_refuted and the findings F12a-e. *)
+Definition C20_fsevents_batched_full : Prop :=
+  forall stat_ino walk sub root ops view f,
+  root <> [] -> last_is_sep root = false -> wf_fs f -> ops_ok f ops ->
+  let final := fold_left apply_op ops f in
+  (forall p, stat_ino (abspath root p) = match lookup final p with Some e => Some (e_ino e) | None => None end) ->
+  (forall p, walk (abspath root p) = sub p) -> (forall p, wf_tree (sub p) = true) ->
+  (forall p, Permutation (map (fun x => (snd x, fst x)) (desc [] (sub p))) (below final p)) ->
+  (forall i, mem i view = true -> ino_used f i = true) ->
+  forall natives, natives = batch_natives root f ops \/ natives = coalesce_all (batch_natives root f ops) ->
+  exists out v s es, queue_events stat_ino walk true root view natives = Some (out, v, s) /\
+    out = map (render root) es /\
+    Permutation (replay (view_of f) es) (view_of final).
+
+(* Non-vacuity of [batch_ok]: touch a; mv b c delivered as one batch. *)
+Example C20_fsevents_batch_nonvacuous :
+  let f := [Entry [nb] KFile 7%N] in
+  let ops := [OCreate [na] 5%N; ORename [nb] [nc]] in
+  let stat (p : bytes) := if beqb p (abspath r_ [na]) then Some 5%N else if beqb p (abspath r_ [nc]) then Some 7%N else None in
+  let sub (_ : path) := Node [] [] in
+  batch_ok stat sub r_ [7%N] f ops /\
+  queue_events stat (fun _ => Node [] []) true r_ [] (batch_natives r_ f ops)
+  = Some (map (render r_) (batch_contracts sub f ops), [7; 5]%N, false).
+Proof.
+  split; [|vm_compute; reflexivity].
+  cbn [batch_ok]. repeat split; try reflexivity; try exact I.
+  - intros i [<-|[]] [H|[]]. discriminate.
+  - intros H. discriminate.
+  - intros i [].
+  - intros _. vm_compute. constructor.
+Qed.
 
 (* Several operations in one batch (flags coalesced per item and path): the replay law is false of the
    emitter - F12 (proposed known finding).  mv a b; mv b c arrives as a, b, c all flagged renamed with
